@@ -105,13 +105,14 @@ def sig(f, recv):
     if pos:
         parts += [fmt(p) for p in pos] + ["/"]
     parts += [fmt(p) for p in pk]
+    # functions whose return is annotated in the source also annotate their variadic parameters
     if f["varargs"]:
-        parts.append("*" + f["varargs"])
+        parts.append("*" + f["varargs"] + (": int" if f["ret_anno"] else ""))
     elif kw:
         parts.append("*")
     parts += [fmt(p) for p in kw]
     if f["varkw"]:
-        parts.append("**" + f["varkw"])
+        parts.append("**" + f["varkw"] + (": str" if f["ret_anno"] else ""))
     return ", ".join(parts)
 
 
